@@ -27,9 +27,10 @@ class CallbackError(Exception):
 class ExternalCase(Case):
     family = "external-process"
 
-    def __init__(self, cid, *, nevals=2, error_at=None, abort_kind="exception"):
+    def __init__(self, cid, *, nevals=2, error_at=None, abort_kind="exception", write_error=False):
         """error_at: the child reports an error instead of evaluation number error_at"""
         self.id, self.nevals, self.error_at, self.abort_kind = cid, nevals, error_at, abort_kind
+        self.write_error = write_error
         self.cfg0 = ens.ensemble_config(N=2, R=1, P=1, extra={"optimizer": {"method": "external/slsqp"}})
         self.msgs = ["config", "initial_values"]
         for e in range(nevals):
@@ -40,7 +41,7 @@ class ExternalCase(Case):
         self.family = "external-process" + ("/child-error" if error_at is not None else "")
 
     def describe(self):
-        return f"messages={len(self.msgs)} evaluations={self.nevals} child_error_at={self.error_at} callback_raises={self.abort_kind}"
+        return f"messages={len(self.msgs)} evaluations={self.nevals} child_error_at={self.error_at} callback_raises={self.abort_kind} unsendable_answer={self.write_error}"
 
     def inputs(self, env):
         n = len(self.msgs)
@@ -50,6 +51,8 @@ class ExternalCase(Case):
             "raise_at": env.integer("raise_at", 0, self.nevals),  # nevals: the callback never raises
             "wfail": env.integer("wfail", 0, 2),
             "rempty": env.integer("rempty", 0, 1),
+            # the parent's k-th answer cannot be sent at all (e.g. it is not JSON-serialisable); n: never
+            "wexc": env.integer("wexc", 0, n) if self.write_error else n,
         }
 
     def run(self, env, inp):
@@ -58,6 +61,7 @@ class ExternalCase(Case):
         die_after, raise_at = int(inp["die_after"]), int(inp["raise_at"])
         rc_abn = {1: 1, 2: -9, 3: 3, 4: -15}[int(inp["rc"])]
         wfail, rempty = int(inp["wfail"]), int(inp["rempty"])
+        wexc = int(inp["wexc"])
         msgs = self.msgs
         st = {"exchanged": 0, "pending": False, "sent": 0, "abort_written": False, "polls": 0, "killed": [], "waited": 0,
               "answers": [], "wf": 0, "re": 0, "atexit": 0, "evals": 0}
@@ -119,6 +123,9 @@ class ExternalCase(Case):
                 return msgs[st["sent"] - 1]
 
             def write(self, answer):
+                if len(st["answers"]) == wexc and answer != "abort":
+                    st["write_raised"] = True
+                    raise TypeError("Object of type PosixPath is not JSON serializable")
                 if st["wf"] < wfail:
                     st["wf"] += 1
                     return False
@@ -187,7 +194,10 @@ class ExternalCase(Case):
         callback_raised = st["evals"] > o["raise_at"]
         child_error = any(isinstance(m, dict) and "error" in m for m in self.msgs[: st["sent"]])
         props = []
-        if callback_raised and not died:
+        if st.get("write_raised"):
+            # whatever else happened: the failure is reported and nothing is left running
+            props.append(("unsendable_answer_is_an_error", SB(raised is not None)))
+        elif callback_raised and not died:
             if self.abort_kind == "aborted":
                 from ropt.exceptions import OptimizationAborted
                 props.append(("abort_of_the_callback_is_propagated", SB(isinstance(raised, OptimizationAborted))))
@@ -606,6 +616,7 @@ def build_cases(tier):
     add(nevals=1)
     add(nevals=2, error_at=1)
     add(nevals=2, error_at=0)
+    add(nevals=2, write_error=True)          # an answer that cannot be serialised
     add(nevals=2, abort_kind="aborted")     # ropt's own abort (budget, user abort) raised on the parent side
     k += 1
     cases.append(ChildCase(f"c20-{k:03d}"))
